@@ -159,3 +159,20 @@ CONTRACTS.append(Contract(
              ('declared-array-ness-whatever-the-value', f'{VP_I}.is_array == {VP_C}.is_array')],
     raises={'CIMError': Raises(post=[('always-INVALID_PARAMETER', 'exc.status_code == CIM_ERR_INVALID_PARAMETER')])},
 ))
+
+# ---- the CIM_Namespace provider's CreateInstance (an instance operation of this property: ALREADY_EXISTS / INVALID_PARAMETER
+# "raised in exactly the documented situations", nothing else escapes) is under contract in contracts/C11_prov.py: shared here.
+import importlib.util as _ilu
+import os as _os
+import sys as _sys
+if 'contracts_C11' not in _sys.modules:
+    _sp11 = _ilu.spec_from_file_location('contracts_C11', _os.path.join(_os.path.dirname(_os.path.abspath(__file__)), 'C11.py'))
+    _c11 = _ilu.module_from_spec(_sp11)
+    _sys.modules['contracts_C11'] = _c11
+    _sp11.loader.exec_module(_c11)
+else:
+    _c11 = _sys.modules['contracts_C11']
+for _c in _c11.CONTRACTS:
+    if _c.key.startswith('pywbem_mock/_namespaceprovider.py::CIMNamespaceProvider.'):
+        _c.home_class_specs = _c11.CLASS_SPECS      # verified with the class view of its home module (C11)
+        CONTRACTS.append(_c)
